@@ -618,8 +618,38 @@ def r04_12(ctx):
     (ctx.ok(construct, pf.loc()) if ok else ctx.bad(construct, "parser 1's factor rule changed", pf.loc()))
 
 
+def r04_13(ctx):
+    """R04.13 the `if` that starts the condition of an option line is a keyword token outside quotes: the option-block grammar
+    of parser 2 works on the whitespace-split line, where the word `if` may also sit inside a quoted default / prompt /
+    value (`default "say if so"`); it is therefore never located with `tokens.index("if")` or `"if" in tokens`."""
+    repo = ctx.repo
+    G = "esp_kconfiglib.kconfig_grammar"
+    n_ok = 0
+    for f in repo.funcs_in(G):
+        for x in ast.walk(f.node):
+            if repo.enclosing_func(x) is not f:
+                continue
+            naive = None
+            if isinstance(x, ast.Call) and isinstance(x.func, ast.Attribute) and x.func.attr == "index" and x.args and isinstance(x.args[0], ast.Constant) and x.args[0].value == "if":
+                naive = x
+            if isinstance(x, ast.Compare) and isinstance(x.left, ast.Constant) and x.left.value == "if" and len(x.ops) == 1 and isinstance(x.ops[0], (ast.In, ast.NotIn)):
+                naive = x
+            if naive is not None:
+                ctx.bad(f"{f.short}/`if` keyword located outside quoted strings", f"`{ast.unparse(naive)}` also finds the word inside a quoted string: the line is cut "
+                        "inside the string and rejected (or mis-read) by parser 2 only", f.loc(naive))
+            if isinstance(x, ast.Call) and isinstance(x.func, ast.Name) and x.func.id == "index_of_if":
+                n_ok += 1
+    h = [f for f in repo.funcs_in(G) if f.name == "index_of_if"]
+    construct = "KconfigOptionBlock/quote-aware search for the `if` keyword"
+    if h and n_ok:
+        tracks = any(isinstance(n, ast.Compare) and "quote" in ast.unparse(n) for n in ast.walk(h[0].node))
+        (ctx.ok(construct, h[0].loc(), uses=n_ok) if tracks else ctx.bad(construct, "index_of_if no longer tracks quotes", h[0].loc()))
+    else:
+        ctx.ok(construct + " (no naive search found)", "", nontrivial=False)
+
+
 def rules():
-    return [("R04.12", r04_12, 5), ("R04.11", r04_11, 3), ("R04.10", r04_10, 4), ("R04.1", r04_1, 20), ("R04.2", r04_2, 25), ("R04.3", r04_3, 14), ("R04.4", r04_4, 8), ("R04.5", r04_5, 5),
+    return [("R04.13", r04_13, 1), ("R04.12", r04_12, 5), ("R04.11", r04_11, 3), ("R04.10", r04_10, 4), ("R04.1", r04_1, 20), ("R04.2", r04_2, 25), ("R04.3", r04_3, 14), ("R04.4", r04_4, 8), ("R04.5", r04_5, 5),
             ("R04.6", r04_6, 3), ("R04.7", r04_7, 3), ("R04.8", r04_8, 4), ("R04.8b", r04_8b, 5), ("R04.9", r04_9, 2)]
 
 
